@@ -165,9 +165,22 @@ def _to_sympy(z, syms, atoms):
     # anything else (constants, uninterpreted applications, ite, ...) is an atom
     key = z.get_id()
     if key not in syms:
-        name = f"a{len(syms)}"
+        # congruence: applications of the same uninterpreted function to ring-equal arguments are the same atom
+        ckey = None
+        if z3.is_app(z) and z.decl().kind() == z3.Z3_OP_UNINTERPRETED and ch and all(z3.is_real(c) or z3.is_int(c) for c in ch):
+            try:
+                ckey = (z.decl().name(),) + tuple(str(sp.expand(sp.together(_to_sympy(c, syms, atoms)))) for c in ch)
+            except Exception:
+                ckey = None
+        if ckey is not None and ckey in syms:
+            syms[key] = syms[ckey]
+            return syms[key]
+        name = f"a{len(atoms)}"
         syms[key] = sp.Symbol(name, real=True)
         atoms[name] = z
+        if ckey is not None:
+            syms[ckey] = syms[key]
+            atoms.setdefault("__canon__", {})[name] = ckey
     return syms[key]
 
 
@@ -205,6 +218,8 @@ def ring_check(hyps, goal, timeout_s=20):
             while changed:
                 changed = False
                 for name, a in list(names.items()):
+                    if name == "__canon__":
+                        continue
                     if z3.is_app(a) and a.decl().name() == "u_sqrt" and ("sq", name) not in relations:
                         relations.append(("sq", name))
                         arg = _to_sympy(a.children()[0], syms, atoms)
@@ -226,13 +241,15 @@ def ring_check(hyps, goal, timeout_s=20):
                 num2, _ = sp.fraction(sp.together(red))
                 num = sp.expand(num2)
             # trig: replace cos^2 -> 1 - sin^2
-            for name, a in atoms.items():
+            canon = atoms.get("__canon__", {})
+            for name, a in list(atoms.items()):
+                if name == "__canon__":
+                    continue
                 if z3.is_app(a) and a.decl().name() == "u_cos":
                     c = syms[a.get_id()]
-                    sarg = a.children()[0]
                     s_sym = None
                     for n2, a2 in atoms.items():
-                        if z3.is_app(a2) and a2.decl().name() == "u_sin" and a2.children()[0].get_id() == sarg.get_id():
+                        if n2 != "__canon__" and z3.is_app(a2) and a2.decl().name() == "u_sin" and canon.get(n2, (0, n2))[1:] == canon.get(name, (1, name))[1:]:
                             s_sym = syms[a2.get_id()]
                     if s_sym is not None:
                         p = sp.Poly(sp.expand(num), c)
